@@ -358,7 +358,10 @@ class PropertyCheck:
         if confirmed is not None:
             self.report_violation(key, label, confirmed, ob)
             return
-        if norm_label(label) in baseline:
+        # "no exception outside the declared ones" is an obligation of every function under contract: it held (vacuously or not)
+        # on the reviewed tree exactly when the function has baseline labels at all
+        implicit = ":no-undeclared-exception." in label and any(b.startswith(key.split("[")[0] + ":") or b.startswith(key + ":") for b in baseline)
+        if norm_label(label) in baseline or implicit:
             # baseline obligation now refuted, no failing input found
             path = self.write_replay(key, label, None, ob, note="no failing input found; solver refuted a baseline obligation")
             self.violations.append({"function": key, "obligation": label, "replay": path, "confirmed": False})
